@@ -82,6 +82,22 @@ func execute(op txm.Op, failCall, failHook int) runResult {
 	return executeCause(op, failCall, failHook, nil)
 }
 
+// entry: how the handle the operation starts from was made. A scope that hands back a new session (Session,
+// WithContext; Debug does the same) is ordinary use: the operation is still one operation.
+var entry int
+
+func entryHandle() *gorm.DB {
+	switch entry {
+	case 1:
+		return H.DB.Scopes(func(d *gorm.DB) *gorm.DB { return d.Session(&gorm.Session{}) })
+	case 2:
+		return H.DB.Scopes(func(d *gorm.DB) *gorm.DB { return d.WithContext(context.Background()) })
+	case 3:
+		return H.DB.Scopes(func(d *gorm.DB) *gorm.DB { return d }, func(d *gorm.DB) *gorm.DB { return d.Session(&gorm.Session{SkipHooks: false}) })
+	}
+	return H.DB.Session(&gorm.Session{})
+}
+
 func executeCause(op txm.Op, failCall, failHook int, cause error) runResult {
 	return executeCauseBare(op, failCall, failHook, cause, false)
 }
@@ -101,7 +117,7 @@ func executeCauseBare(op txm.Op, failCall, failHook int, cause error, bare bool)
 		H.Rec.SetHook(recdrv.FailNth(-1, nil, &count))
 	}
 	mark := H.Rec.Mark()
-	res := op.Run(H.DB.Session(&gorm.Session{}))
+	res := op.Run(entryHandle())
 	H.Rec.SetHook(nil)
 	out := runResult{err: res.Error, rows: res.RowsAffected, events: H.Rec.Since(mark), hooks: txm.H.Count, hookLog: txm.H.Log}
 	txm.H.FailAt = 0
@@ -185,8 +201,14 @@ func tableCounts(dump string) map[string]int {
 
 func run(c *core.Ctx) {
 	kind := txm.OpKinds[c.Case%len(txm.OpKinds)]
+	entry = []int{0, 0, 1, 2, 3}[(c.Case/len(txm.OpKinds))%5]
+	defer func() { entry = 0 }()
 	seed := c.R.U64()
 	op := txm.GenOp(kind, seed)
+	if entry != 0 {
+		op.Desc += []string{"", " [from db.Scopes(returns d.Session(&Session{}))]", " [from db.Scopes(returns d.WithContext(ctx))]", " [from db.Scopes(identity, returns d.Session(&Session{}))]"}[entry]
+		c.Inc("operations_entered_through_a_scope_that_returns_a_session")
+	}
 	c.Logf("OP %s", op.Desc)
 
 	// fault-free reference run
